@@ -168,8 +168,8 @@ class Ctx:
             if diff2 <= scale + slack:
                 err = min(err, 1.0)
         key = cls or monitor
-        if err > self.worst.get(key, 0.0):
-            self.worst[key] = err
+        if err <= 1 and err > self.worst.get(key, -1.0):
+            self.worst[key] = err  # largest error (in units of the tolerance) among the comparisons that passed
         if not (err <= 1):
             return self.fail(
                 monitor,
